@@ -5,11 +5,48 @@ HERE = os.path.dirname(os.path.abspath(__file__))
 V = os.path.dirname(HERE)
 BASE_OFF = "for m in $(cat /w/out/gomods.txt); do MF=$(cd /repo/$m && . /w/out/goenv.sh && gomodflag); (cd /repo/$m && go test $MF -json -vet=off -count=1 -timeout 25m ./...); done"
 
+CTL_NOTE = "Trusted: Coq kernel, vm_compute, Go harness (scripted fake backends implementing the model's world, fake replica HTTP), python glue. Modelled not verified: each controller method is one atomic event (the RWMutex), AddReplica split where the code drops the lock, monitor goroutines fire when released, Go map orders taken from the observation and validated; WaitGroup fan-out, rpc and real replicas are outside (C15/C17/C01). Quorum replicas and Revert are not modelled."
+
 CHECKS = {
+ "C02": dict(
+   text="Coq theorems over the Ctl model (controller.Controller as an event machine over scripted replicas): a write is acknowledged only if strictly more than half of the in-service (non-ERR) backends applied it; without such a majority it is reported failed; every backend that errored or timed out is out of the replica list when the operation returns. Oracle c02_step (also: every replica still in service holds the acknowledged write) evaluated on the real controller for exhaustive outcome assignments.",
+   note=CTL_NOTE + " 'Attached at that moment' is read as in service (not marked ERR): an ERR-marked replica awaiting removal receives nothing.",
+   technique="Coq proof (step theorems under the structural invariant) + exhaustive fault-assignment differential run against the real controller", ref="§3 C02"),
+ "C03": dict(
+   text="Coq theorems over the Ctl model: in every reachable state (induction over all 15 event kinds, any fault script, rf>=1) ReadOnly = (RW count < rf/2+1) and RWReplicaCount = number of RW entries; below the quorum a write/sync/unmap returns Refused with the entire state (incl. every replica's log) unchanged; with a quorum the gate does not refuse. Oracle c03_step evaluated on the real controller along every membership-changing path around the quorum boundary, with probe writes before and after monitor goroutines run.",
+   note=CTL_NOTE, technique="Coq proof (invariant by induction over events) + differential run with schedule control of the monitor goroutines", ref="§3 C03"),
+ "C04": dict(
+   text="Coq theorems over the Ctl model: for every admissible order in which the reader list is tried, a successful read is served by a replica whose mode is RW in the controller's list; with no RW replica a read fails. Oracle c04_step additionally checks that failed readers are detached and that an in-range read fails only if every RW replica failed it; evaluated on the real controller for every failing-reader subset.",
+   note=CTL_NOTE + " Freshness of the served data relies on C02 (in-service replicas hold acknowledged writes) and C07 (rebuilt replicas); the fake world does not copy data at promotion.",
+   technique="Coq proof (step theorems) + exhaustive reader-fault differential run", ref="§3 C04"),
+ "C05": dict(
+   text="Coq theorems over the Ctl model: replicas that fail a write are out of the list when it returns; removal by any detector removes; a replica enters the list only through add-commit (itself, as WO) or a start on an empty list (theorem over all event kinds). Oracle c05_step additionally checks that a failing minority does not surface as an I/O error and that nobody outside the set receives I/O; every failing subset x detector order is run on the real controller.",
+   note=CTL_NOTE + " Timeouts are the outcome 'applied-then-error'; the rpc side is C15.",
+   technique="Coq proof (step theorems + keys-subset argument over all events) + differential run over failing subsets and detector orders", ref="§3 C05"),
+ "C09": dict(
+   text="Coq theorems over the Ctl model: a registration sends a start signal only with no replica attached and floor(RF/2)+1 registered, sends at most one, and the target has the maximal revision count among the registered non-rebuilding replicas; Start succeeds only for the signalled leader and a refused Start leaves the state unchanged. Oracle c09_step (also: lower-revision replicas are not RW after start) evaluated on the real controller over registration orders, ties, repetitions, signal/liveness failures.",
+   note=CTL_NOTE + " Histories give every replica one fixed (revision, rebuilding) assignment, as the property's quantifier does. The election pick among equally good candidates is Go map order: observed and validated.",
+   technique="Coq proof (step theorems) + enumerated/random registration-order differential run", ref="§3 C09"),
+ "C13": dict(
+   text="Coq theorems over the Ctl model: Snapshot is refused with nothing touched unless the RW count equals RF; a checkpoint is recorded only if exactly RF replicas are RW, all backends are RW, all report the same latest snapshot and all stored it; removing a replica withdraws it. Oracle c13_step (gate on the actual RW count; at quiescent points checkpoint => all RF RW, in every chain, persisted by each) evaluated on the real controller.",
+   note=CTL_NOTE + " Point-in-time equality of snapshot content on real replicas follows from the controller lock held across the fan-out (modelled as atomic) and is exercised only with fakes here.",
+   technique="Coq proof (step theorems) + per-replica snapshot/set-checkpoint fault differential run", ref="§3 C13"),
+ "C18": dict(
+   text="Coq theorems over the Ctl model: in every reachable state (induction over all events incl. duplicates, unknown addresses, interleaved admissions; start requests naming <=1 replica) no address twice, backend map = replica list (addresses and modes), at most RF replicas, at most one WO, RW count exact, registration map duplicate-free; replicas enter only via add-commit/start. Oracle c18_step evaluated on the real controller, including that replicas outside the list receive no calls.",
+   note=CTL_NOTE + " Known limitation stated in the theorem: a REST start naming more replicas than RF is outside ev_wf.",
+   technique="Coq proof (structural invariant by induction over events) + random/enumerated membership-history differential run", ref="§3 C18"),
  "C10": dict(
    text="Coq theorems over the Srv model (replica.Server + Replica.WriteAt + revision_counter.go): for every history of server calls, REST actions, attaches, closes, crashes (also between data write and counter write) and reopen events the persisted counter equals the initial one plus the number of writes acknowledged while RW; it never decreases; WO / refused writes leave it; SetRevisionCounter is refused unless RW. The executable trace oracle c10_oracle is proved to hold on every model trace and is evaluated on the implementation's observations.",
-   note="Trusted: Coq kernel, vm_compute, the Go harness and python glue. Modelled not verified: data abstracted to write ids; crash = abandoning the Server object; mutex atomicity of increaseRevisionCounter only sampled (16 concurrent writers, exact final count). Promotion equality (VerifyRebuildReplica copies the source counter) is part of the Ctl model.",
+   note="Trusted: Coq kernel, vm_compute, the Go harness and python glue. Modelled not verified: data abstracted to write ids; crash = abandoning the Server object; mutex atomicity of increaseRevisionCounter only sampled (16 concurrent writers, exact final count). Promotion equality (VerifyRebuildReplica copies the source counter) is theorem verify_promotes_after_check of the Ctl model.",
    technique="Coq proof (induction over histories, invariant cache=disk) + differential run of model vs real replica.Server", ref="§3 C10"),
+ "C14": dict(
+   text="Lock discipline of every management-API handler, regenerated from the Go AST on each run and accepted by a Coq-verified checker (check_sound: no unlock of an unheld mutex, no relock, no send under a lock, nothing held at any exit including panic; for every execution / choice sequence); generated obligation handlers_ok re-checked by coqc; plus request fuzzing of the real routers (controller with fake backends, replica on a directory) in child processes: status, panic, hang, liveness probe, TryLock, child alive.",
+   note="Proof covers lock discipline and action gating only. Runtime panics, hangs and process death are searched, not proved. Translator harness/cmd/restgen is in the trusted base (structural; unknown constructs become Unknown, which the checker rejects). Callees outside Controller/replica.Server/rest packages are assumed not to touch the tracked mutexes.",
+   technique="Coq proof (verified checker + generated obligation by vm_compute, model regenerated from source) + request fuzzing", ref="§3 C14"),
+ "C15": dict(
+   text="Coq theorems over the Rpc model. Codec (rpc/wire.go over byte lists): decode(encode m ++ rest) = (m, rest) for every message within the Go field ranges; concatenated frames decode in order; bad magic and truncated frames rejected; accepted input re-encodes to the bytes consumed. Client (rpc/client.go loop + operation as an event machine, uint32 counter wrapping): each call returns at most once; a non-error result is the response carrying the number its frame was sent with; under the stated guard one pending entry per number; the guard is necessary (refutation on a small modulus); on a transport error every blocked caller gets the error in that step and every later call is refused at once. Trace oracles proved on all model traces and evaluated on the real rpc.Wire / rpc.Client.",
+   note="Trusted: Coq kernel, vm_compute, Go harness (scripted TCP peer with its own frame codec), python glue, reconstruction of the loop's event order from the peer's log. Not proved: goroutine scheduling and channels; 'promptly' is a measured bound (rw timeout + fixed 2 s + slack); sync/unmap/ping deadlines are not configurable; counter wrap is not driven on the real client; detachment beyond the closeChan signal belongs to Ctl/C05.",
+   technique="Coq proof (induction over event sequences with invariants; generic little-endian lemmas) + differential run against real rpc.Wire / rpc.Client with scripted reply permutations and faults", ref="§3 C15"),
  "C17": dict(
    text="Coq theorems over the Srv model: a write changes data only if the replica is open and RW/WO (otherwise refused with the whole state unchanged); a closed replica serves nothing; remove / prepare-remove / set-revision-counter refused unless RW; attach (remote.Factory.Create) only from closed and never twice without a close; every REST action outside the state's table is answered 404 with no effect (all 6x17 pairs, as one theorem over the transcribed table). Oracle c17_oracle proved on all model traces and evaluated on the implementation's traces; every (state, action) pair is driven through the real router.",
    note="Trusted: as C10. The table `allowed` is a transcription of replica/rest/model.go; its tie to the code is the exhaustive (state, action) run on every invocation. Actions start/resize/replacedisk/setlogging/updatecloneinfo are covered only up to the gate.",
